@@ -55,7 +55,7 @@ def simp(e):
     if op == 'not':
         x = a[0]
         if x[0] == 'op' and x[1] in NEG:
-            return ('op', NEG[x[1]], x[2], x[3])
+            return simp(('op', NEG[x[1]], x[2], x[3]))
         if x[0] == 'op' and x[1] == 'not':
             return x[2]
         if x[0] == 'op' and x[1] in ('and', 'or'):
@@ -408,6 +408,90 @@ def liveness(g, outputs):
     return live_out
 
 
+def sort_exclusive_guards(g):
+    """a run of diamonds  if (v == k1) S1; if (v == k2) S2; ...  with distinct literals k_i on one variable v that no
+    S_i writes fires at most one S_i: the order of the diamonds is immaterial; sort them by literal"""
+    g = cfgm.compact(g, drop=('nop', 'io'))
+    preds = g.preds()
+
+    def diamond(b):
+        """branch b: true arm is a straight chain of assign/call nodes re-joining the false arm target"""
+        if b.kind != 'branch':
+            return None
+        c = b.stmt[1]
+        if not (c[0] == 'op' and c[1] == '==' and len(c) == 4 and c[2][0] == 'num' and c[3][0] == 'var'):
+            return None
+        join = b.succ[1]
+        body = []
+        i = b.succ[0]
+        while i != join:
+            n = g.nodes[i]
+            if n.kind not in ('assign', 'call') or len(n.succ) != 1 or len(preds[i]) != 1 or len(body) > 6:
+                return None
+            body.append(n)
+            i = n.succ[0]
+        if not body:
+            return None
+        return (c[3][1], c[2][1], body, join)
+    seen = set()
+    for b in g.nodes:
+        if b.id in seen or b.kind != 'branch':
+            continue
+        chain = []
+        x = b
+        while True:
+            d = diamond(x)
+            if d is None or (chain and (d[0] != chain[0][1][0] or len(preds[x.id]) != 1 + len(chain[-1][1][2][-1:]))):
+                break
+            chain.append((x, d))
+            seen.add(x.id)
+            x = g.nodes[d[3]]
+            if x.kind != 'branch':
+                break
+        if len(chain) < 2:
+            continue
+        v = chain[0][1][0]
+        lits = [d[1] for _, d in chain]
+        if len(set(lits)) != len(lits):
+            continue
+        if any(node_def(s) == v for _, d in chain for s in d[2]):
+            continue
+        # every interior branch must be entered only from the previous diamond (its branch and its body end)
+        ok = True
+        for k in range(1, len(chain)):
+            bk = chain[k][0]
+            want = {chain[k - 1][0].id, chain[k - 1][1][2][-1].id}
+            if set(preds[bk.id]) != want:
+                ok = False
+        if not ok:
+            continue
+        order = sorted(range(len(chain)), key=lambda k: lits[k])
+        if order == list(range(len(chain))):
+            continue
+        # permute the payloads (condition + body) over the fixed skeleton of branch nodes
+        payload = [(chain[k][0].stmt, chain[k][0].line, [(s.kind, s.stmt, s.line) for s in chain[k][1][2]])
+                   for k in order]
+        exit_join = chain[-1][1][3]
+        heads = [chain[k][0] for k in range(len(chain))]
+        # rebuild: head_k -> new body nodes -> next head / exit
+        for k, (stmt, line, body) in enumerate(payload):
+            h = heads[k]
+            h.stmt, h.line = stmt, line
+            nxt = heads[k + 1].id if k + 1 < len(heads) else exit_join
+            prev = None
+            first = None
+            for kind, st, ln in body:
+                nn = g.new(kind, st, ln)
+                if prev is not None:
+                    prev.succ = [nn.id]
+                else:
+                    first = nn
+                prev = nn
+            prev.succ = [nxt]
+            h.succ = [first.id, nxt]
+    return cfgm.compact(g, drop=('nop', 'io'))
+
+
 def drop_defensive_throws(g, record):
     """port-only argument checks of the form `if (cond) throw ...` (one arm of the branch reaches a throw
     without doing anything else): the branch is removed and the site recorded as an admissible difference"""
@@ -709,7 +793,7 @@ def normalise_cfg(g, outputs, notes, keep_vars=(), lang=None):
                 changed = True
         if not changed:
             break
-    return cfgm.compact(g, drop=('nop', 'io'))
+    return sort_exclusive_guards(cfgm.compact(g, drop=('nop', 'io')))
 
 
 # ------------------------------------------------------------------ event-record idioms (normal-form rule 4)
@@ -1095,7 +1179,8 @@ class Bisim:
                 if len(rf) > 1 or len(rc) > 1:
                     ok = False
                     tried = set()
-                    for extra in (sum(1 for x in rc if self.admissible_init(x)), 0):
+                    nadm = sum(1 for x in rc if self.admissible_init(x))
+                    for extra in ((0, nadm) if len(rf) == len(rc) else (nadm, 0)):
                         k = min(len(rf), len(rc) - extra)
                         if k < 1 or (k, extra) in tried or (k == 1 and extra == 0):
                             continue
@@ -1117,6 +1202,11 @@ class Bisim:
                     if ok:
                         continue
             m = self.node_eq(f, c)
+            if m and c.kind == 'assign' and self.admissible_init(c) and len(c.succ) == 1:
+                self.admissible_used.append(('zero-init', c.line, desc(c)))
+                self.pairs.discard((fi, ci))
+                work.append((fi, c.succ[0]))
+                continue
             if m:
                 # the two suffixes may still compute the same thing written differently: if both are loop-free,
                 # compare their symbolic path summaries (events, outputs) under the pairing found so far
